@@ -51,8 +51,13 @@ func plans(thorough bool) []plan {
 	rtos := []int{0, 100, 200, 400, 800, 1600}
 	delays := []string{"imm", "half", "pre", "post"}
 	var masks []int
-	for i := 1; i <= maxSends; i++ {
+	for i := 1; i <= maxSends; i++ { // quick: one answered transmission, or two (the second answer is a late duplicate)
 		masks = append(masks, 1<<(i-1))
+	}
+	for i := 1; i <= maxSends; i++ {
+		for j := i + 1; j <= maxSends; j++ {
+			masks = append(masks, 1<<(i-1)|1<<(j-1))
+		}
 	}
 	if thorough {
 		rtos = []int{0, 1, 50, 100, 200, 400, 799, 800, 801, 1000, 1599, 1600}
@@ -132,7 +137,11 @@ func script(c Case, main, warm [12]byte) (items []item, evs []hEv, end time.Dura
 	var firstBatch []datagram
 	switch c.Noise {
 	case "wrongid-first":
-		firstBatch = append(firstBatch, datagram{"srv", response(txid("wrong-txn-id"), 400), 0})
+		// two success responses whose ids differ from the request's in a single bit (first / last byte)
+		w1, w2 := main, main
+		w1[0] ^= 0x80
+		w2[11] ^= 0x01
+		firstBatch = append(firstBatch, datagram{"srv", response(w1, 400), 0}, datagram{"srv", response(w2, 401), 0})
 	case "stale-first":
 		firstBatch = append(firstBatch, datagram{"srv", response(warm, 500), 0})
 	case "nonstun-server":
